@@ -363,7 +363,8 @@ def run_n0(case):
 def strategy(draw):
     A = draw(st.lists(st.integers(-5, 20), min_size=1, max_size=4,
                       unique=True))
-    Bv = draw(st.lists(st.sampled_from(["p", "q", "r", "zz"]), min_size=1,
+    Bv = draw(st.lists(st.sampled_from(["p", "q", "r", "zz", " sp", "t ",
+                                        "two words"]), min_size=1,
                        max_size=3, unique=True))
     run = st.one_of(
         st.fixed_dictionaries({
